@@ -1946,13 +1946,22 @@ static int64_t eval3(Node *node, char ***label) {
   if (is_flonum(node->ty))
     return eval_double(node);
 
+  // The operands are evaluated left to right in separate statements:
+  // which of two non-constant operands is diagnosed must not depend on
+  // the compiler that compiled this file.
   switch (node->kind) {
-  case ND_ADD:
-    return eval2(node->lhs, label) + eval(node->rhs);
-  case ND_SUB:
-    return eval2(node->lhs, label) - eval(node->rhs);
-  case ND_MUL:
-    return eval(node->lhs) * eval(node->rhs);
+  case ND_ADD: {
+    int64_t lhs = eval2(node->lhs, label);
+    return lhs + eval(node->rhs);
+  }
+  case ND_SUB: {
+    int64_t lhs = eval2(node->lhs, label);
+    return lhs - eval(node->rhs);
+  }
+  case ND_MUL: {
+    int64_t lhs = eval(node->lhs);
+    return lhs * eval(node->rhs);
+  }
   case ND_DIV:
   case ND_MOD: {
     int64_t lhs = eval(node->lhs);
@@ -1967,38 +1976,64 @@ static int64_t eval3(Node *node, char ***label) {
   }
   case ND_NEG:
     return -eval(node->lhs);
-  case ND_BITAND:
-    return eval(node->lhs) & eval(node->rhs);
-  case ND_BITOR:
-    return eval(node->lhs) | eval(node->rhs);
-  case ND_BITXOR:
-    return eval(node->lhs) ^ eval(node->rhs);
-  case ND_SHL:
-    return eval(node->lhs) << eval(node->rhs);
-  case ND_SHR:
+  case ND_BITAND: {
+    int64_t lhs = eval(node->lhs);
+    return lhs & eval(node->rhs);
+  }
+  case ND_BITOR: {
+    int64_t lhs = eval(node->lhs);
+    return lhs | eval(node->rhs);
+  }
+  case ND_BITXOR: {
+    int64_t lhs = eval(node->lhs);
+    return lhs ^ eval(node->rhs);
+  }
+  case ND_SHL: {
+    int64_t lhs = eval(node->lhs);
+    return lhs << eval(node->rhs);
+  }
+  case ND_SHR: {
+    int64_t lhs = eval(node->lhs);
     if (node->ty->is_unsigned && node->ty->size == 8)
-      return (uint64_t)eval(node->lhs) >> eval(node->rhs);
-    return eval(node->lhs) >> eval(node->rhs);
-  case ND_EQ:
-    if (is_flonum(node->lhs->ty))
-      return eval_double(node->lhs) == eval_double(node->rhs);
-    return eval(node->lhs) == eval(node->rhs);
-  case ND_NE:
-    if (is_flonum(node->lhs->ty))
-      return eval_double(node->lhs) != eval_double(node->rhs);
-    return eval(node->lhs) != eval(node->rhs);
-  case ND_LT:
-    if (is_flonum(node->lhs->ty))
-      return eval_double(node->lhs) < eval_double(node->rhs);
+      return (uint64_t)lhs >> eval(node->rhs);
+    return lhs >> eval(node->rhs);
+  }
+  case ND_EQ: {
+    if (is_flonum(node->lhs->ty)) {
+      long double lhs = eval_double(node->lhs);
+      return lhs == eval_double(node->rhs);
+    }
+    int64_t lhs = eval(node->lhs);
+    return lhs == eval(node->rhs);
+  }
+  case ND_NE: {
+    if (is_flonum(node->lhs->ty)) {
+      long double lhs = eval_double(node->lhs);
+      return lhs != eval_double(node->rhs);
+    }
+    int64_t lhs = eval(node->lhs);
+    return lhs != eval(node->rhs);
+  }
+  case ND_LT: {
+    if (is_flonum(node->lhs->ty)) {
+      long double lhs = eval_double(node->lhs);
+      return lhs < eval_double(node->rhs);
+    }
+    int64_t lhs = eval(node->lhs);
     if (node->lhs->ty->is_unsigned)
-      return (uint64_t)eval(node->lhs) < eval(node->rhs);
-    return eval(node->lhs) < eval(node->rhs);
-  case ND_LE:
-    if (is_flonum(node->lhs->ty))
-      return eval_double(node->lhs) <= eval_double(node->rhs);
+      return (uint64_t)lhs < eval(node->rhs);
+    return lhs < eval(node->rhs);
+  }
+  case ND_LE: {
+    if (is_flonum(node->lhs->ty)) {
+      long double lhs = eval_double(node->lhs);
+      return lhs <= eval_double(node->rhs);
+    }
+    int64_t lhs = eval(node->lhs);
     if (node->lhs->ty->is_unsigned)
-      return (uint64_t)eval(node->lhs) <= eval(node->rhs);
-    return eval(node->lhs) <= eval(node->rhs);
+      return (uint64_t)lhs <= eval(node->rhs);
+    return lhs <= eval(node->rhs);
+  }
   case ND_COND:
     return eval_truth(node->cond) ? eval2(node->then, label) : eval2(node->els, label);
   case ND_COMMA:
